@@ -1334,7 +1334,13 @@ fn get_full_sync_opps(dbs: &Arc<Databases>) -> Vec<String> {
             };
             for (key, value) in &map_values {
                 if key != TOKEN_KEY && key != CONNECTIONS_KEY {
-                    opps_vec.push(format!("replicate {} {} {}", db_name, key, value));
+                    if value.state == ValueStatus::Deleted {
+                        // A removed key waiting to be deleted from the disk must not come back
+                        // to life on the node that is syncing
+                        opps_vec.push(format!("replicate-remove {} {}", db_name, key));
+                    } else {
+                        opps_vec.push(format!("replicate {} {} {}", db_name, key, value));
+                    }
                 }
             }
 
